@@ -70,6 +70,9 @@ func Stress(seed int64, prog Program) *RunResult {
 		}
 		// shut down at a random moment and restart
 		time.Sleep(time.Duration(rng.Intn(300)) * time.Microsecond)
+		if prog.OnServeUs > 0 && cyc == 0 {
+			time.Sleep(time.Duration(prog.OnServeUs/2) * time.Microsecond) // (requests pile up in the first life's in-channel)
+		}
 		sc.StartShutdown(sdDur)
 		select {
 		case <-sdDur:
@@ -269,6 +272,109 @@ func RestartLoop(seed int64, prog Program, n int) *RunResult {
 // working one, while a producer keeps submitting callbacks of one worker group (accepted from the
 // moment the state is started, i.e. also while the failing subscribe is still in progress). The
 // callbacks of the group must never overlap, whichever serve cycle accepted them.
+// TwoListenerLoop: the first life's Serve call is held in its OnServe callback while requests pile up in its
+// in-channel; the service is shut down and served again; then the first call is released and passes its backlog on
+// while the second life's listener receives requests too. Every callback must run in the worker group that its
+// resource name gives (groups built from tags), one at a time per group.
+func TwoListenerLoop(seed int64, prog Program, n int) *RunResult {
+	out := &RunResult{}
+	res.VerifHook = nil
+	viol := func(kind, text string) {
+		if len(out.Violations) < 5 {
+			out.Violations = append(out.Violations, Violation{Property: "C01", Kind: kind, Text: text, Sig: map[string]string{"kind": kind, "engine": "sched"}})
+		}
+	}
+	var vmu sync.Mutex
+	var occ sync.Map
+	s := res.NewService("test")
+	s.SetLogger(nil)
+	s.SetWorkerCount(prog.Workers)
+	get := func(expect func(r res.GetRequest) string) res.Option {
+		return res.GetResource(func(r res.GetRequest) {
+			want := expect(r)
+			v, _ := occ.LoadOrStore(want, new(int32))
+			ctr := v.(*int32)
+			if got := r.Group(); got != want {
+				vmu.Lock()
+				viol("wrong-group", fmt.Sprintf("callback for %s ran in worker group %q, its resource belongs to group %q", r.ResourceName(), got, want))
+				vmu.Unlock()
+			}
+			if atomic.AddInt32(ctr, 1) > 1 {
+				vmu.Lock()
+				viol("group-overlap", fmt.Sprintf("two callbacks of group %q executing at once", want))
+				vmu.Unlock()
+			}
+			for i := 0; i < 50; i++ {
+				runtime.Gosched()
+			}
+			atomic.AddInt32(ctr, -1)
+			r.NotFound()
+		})
+	}
+	s.Handle("q.$id", get(func(r res.GetRequest) string { return "grp." + r.PathParam("id") }), res.Group("grp.${id}"))
+	s.Handle("lib.$shelf.$book", get(func(r res.GetRequest) string { return "bk." + r.PathParam("book") }), res.Group("bk.${book}"))
+	s.Handle("$tenant.doc.$id", get(func(r res.GetRequest) string { return "ten." + r.PathParam("tenant") }), res.Group("ten.${tenant}"))
+	names := []string{"test.q.a", "test.q.b", "test.q.c", "test.lib.s1.a", "test.lib.s2.b", "test.lib.a.c", "test.a.doc.b", "test.b.doc.a", "test.c.doc.c"}
+	deliver := func(conn *rconn.Conn, k int) {
+		for i := 0; i < k; i++ {
+			conn.Deliver("get."+names[i%len(names)], "inbox.x", nil)
+		}
+	}
+	for rep := 0; rep < n && len(out.Violations) == 0; rep++ {
+		served1, release := make(chan struct{}), make(chan struct{})
+		s.SetOnServe(func(*res.Service) { close(served1); <-release })
+		conn1 := rconn.New(nil)
+		d1 := make(chan error, 1)
+		go func() { d1 <- s.Serve(conn1) }()
+		select {
+		case <-served1:
+		case <-time.After(3 * time.Second):
+			close(release)
+			return out
+		}
+		deliver(conn1, 900) // waits in the in-channel: the listener of this life has not started yet
+		sd := make(chan error, 1)
+		go func() { sd <- s.Shutdown() }()
+		select {
+		case <-sd:
+		case <-time.After(3 * time.Second):
+			close(release)
+			return out
+		}
+		served2 := make(chan struct{})
+		s.SetOnServe(func(*res.Service) { close(served2) })
+		conn2 := rconn.New(nil)
+		d2 := make(chan error, 1)
+		go func() { d2 <- s.Serve(conn2) }()
+		select {
+		case <-served2:
+		case <-d2:
+			close(release)
+			return out
+		case <-time.After(3 * time.Second):
+			close(release)
+			return out
+		}
+		close(release)
+		deliver(conn2, 900)
+		time.Sleep(5 * time.Millisecond)
+		go func() { sd <- s.Shutdown() }()
+		select {
+		case <-sd:
+		case <-time.After(3 * time.Second):
+			return out
+		}
+		for _, d := range []chan error{d1, d2} {
+			select {
+			case <-d:
+			case <-time.After(3 * time.Second):
+			}
+		}
+		out.Steps++
+	}
+	return out
+}
+
 // FailedStartLoop: a Serve or ListenAndServe call that fails before anything was started (no server at
 // the address; a listener registered for a pattern that has no handler) returns an error and leaves a
 // service that is not running: Shutdown comes back at once, and the service - repaired where needed -
